@@ -307,17 +307,155 @@ pub fn binomial_pmf(k: u64, n: u64, p: f64) -> f64 {
     let (n, k) = (n as f64, k as f64);
     (ln_choose(n, k) + k * p.ln() + (n - k) * (-p).ln_1p()).exp()
 }
-/// exact-ish binomial cdf via incomplete beta
-pub fn binomial_cdf(k: f64, n: f64, p: f64) -> f64 {
-    if k < 0.0 {
-        return 0.0;
+// ---- saddle-point (Loader 2000) log-pmfs: accurate to ~1e-15 relative for all magnitudes
+fn stirlerr(n: f64) -> f64 {
+    if n <= 15.0 {
+        return ln_gamma(n + 1.0) - (n + 0.5) * n.ln() + n - 0.918938533204672741780329736406;
     }
-    if k >= n {
-        return 1.0;
+    let nn = n * n;
+    let (s0, s1, s2, s3, s4) = (1.0 / 12.0, 1.0 / 360.0, 1.0 / 1260.0, 1.0 / 1680.0, 1.0 / 1188.0);
+    (s0 - (s1 - (s2 - (s3 - s4 / nn) / nn) / nn) / nn) / n
+}
+fn bd0(x: f64, np: f64) -> f64 {
+    if (x - np).abs() < 0.1 * (x + np) {
+        let v = (x - np) / (x + np);
+        let mut s = (x - np) * v;
+        let mut ej = 2.0 * x * v;
+        let v2 = v * v;
+        for j in 1..1000 {
+            ej *= v2;
+            let s1 = s + ej / (2 * j + 1) as f64;
+            if s1 == s {
+                return s1;
+            }
+            s = s1;
+        }
+        return s;
     }
-    let k = k.floor();
-    // P(X <= k) = I_{1-p}(n-k, k+1)
-    beta_cdf(1.0 - p, n - k, k + 1.0)
+    x * (x / np).ln() + np - x
+}
+/// ln of the binomial pmf with q = 1 - p supplied separately
+pub fn ln_dbinom_raw(x: f64, n: f64, p: f64, q: f64) -> f64 {
+    if p == 0.0 {
+        return if x == 0.0 { 0.0 } else { f64::NEG_INFINITY };
+    }
+    if q == 0.0 {
+        return if x == n { 0.0 } else { f64::NEG_INFINITY };
+    }
+    if x < 0.0 || x > n {
+        return f64::NEG_INFINITY;
+    }
+    if x == 0.0 {
+        if n == 0.0 {
+            return 0.0;
+        }
+        return if p < 0.1 { -bd0(n, n * q) - n * p } else { n * q.ln() };
+    }
+    if x == n {
+        return if q < 0.1 { -bd0(n, n * p) - n * q } else { n * p.ln() };
+    }
+    let lc = stirlerr(n) - stirlerr(x) - stirlerr(n - x) - bd0(x, n * p) - bd0(n - x, n * q);
+    let lf = (2.0 * PI).ln() + x.ln() + (-x / n).ln_1p();
+    lc - 0.5 * lf
+}
+pub fn ln_dpois_raw(x: f64, lam: f64) -> f64 {
+    if x == 0.0 {
+        return -lam;
+    }
+    -0.5 * (2.0 * PI * x).ln() - stirlerr(x) - bd0(x, lam)
+}
+pub fn ln_dhyper(x: f64, r: f64, b: f64, n: f64) -> f64 {
+    // r with feature, b without, n draws
+    if x < 0.0 || x > r || n - x > b || x > n {
+        return f64::NEG_INFINITY;
+    }
+    if n == 0.0 {
+        return if x == 0.0 { 0.0 } else { f64::NEG_INFINITY };
+    }
+    let p = n / (r + b);
+    let q = (r + b - n) / (r + b);
+    ln_dbinom_raw(x, r, p, q) + ln_dbinom_raw(n - x, b, p, q) - ln_dbinom_raw(n, r + b, p, q)
+}
+
+/// CDF of an integer law from its log-pmf: cumulative table over mean +- 12 sd when that is small enough,
+/// else the Edgeworth-corrected normal approximation (remainder O(1/sd^2), returned as second component).
+pub struct DiscRef {
+    lo: f64,
+    table: Vec<f64>,
+    edge: Option<(f64, f64, f64, f64)>, // mean, sd, skewness, excess kurtosis
+    pub tau: f64,
+    smin: f64,
+    smax: f64,
+}
+impl DiscRef {
+    pub fn new(lnpmf: &dyn Fn(f64) -> f64, mean: f64, sd: f64, skew: f64, exkurt: f64, smin: f64, smax: f64) -> Self {
+        if sd <= 1.5e5 {
+            let lo = (mean - 12.0 * sd - 40.0).floor().max(smin);
+            let hi = (mean + 12.0 * sd + 40.0).ceil().min(smax);
+            let n = (hi - lo) as usize + 1;
+            let mut t = Vec::with_capacity(n);
+            let mut c = 0.0;
+            for i in 0..n {
+                c += lnpmf(lo + i as f64).exp();
+                t.push(c);
+            }
+            DiscRef { lo, table: t, edge: None, tau: 1e-12, smin, smax }
+        } else {
+            DiscRef { lo: 0.0, table: vec![], edge: Some((mean, sd, skew, exkurt)), tau: 30.0 / (sd * sd), smin, smax }
+        }
+    }
+    pub fn cdf(&self, k: f64) -> f64 {
+        if k < self.smin {
+            return 0.0;
+        }
+        if k >= self.smax {
+            return 1.0;
+        }
+        let k = k.floor();
+        match self.edge {
+            None => {
+                if k < self.lo {
+                    return 0.0;
+                }
+                let i = (k - self.lo) as usize;
+                if i >= self.table.len() { 1.0 } else { self.table[i].min(1.0) }
+            }
+            Some((m, s, g1, g2)) => {
+                let z = (k + 0.5 - m) / s;
+                let d = (-0.5 * z * z).exp() / (2.0 * PI).sqrt();
+                let h2 = z * z - 1.0;
+                let h3 = z * z * z - 3.0 * z;
+                let h5 = z.powi(5) - 10.0 * z.powi(3) + 15.0 * z;
+                (phi(z) - d * (g1 * h2 / 6.0 + g2 * h3 / 24.0 + g1 * g1 * h5 / 72.0)).clamp(0.0, 1.0)
+            }
+        }
+    }
+}
+pub fn binomial_ref(n: f64, p: f64) -> DiscRef {
+    let q = 1.0 - p;
+    let (pp, qq, flip) = if p > 0.5 { (q, p, true) } else { (p, q, false) };
+    // for p > 1/2 the complement 1 - p is exact (Sterbenz); work with Y = n - X ~ Bin(n, 1 - p) mirrored
+    let mean = n * p;
+    let sd = (n * p * q).sqrt();
+    let skew = if sd > 0.0 { (q - p) / sd } else { 0.0 };
+    let ek = if sd > 0.0 { (1.0 - 6.0 * p * q) / (sd * sd) } else { 0.0 };
+    let f = move |x: f64| if flip { ln_dbinom_raw(n - x, n, pp, qq) } else { ln_dbinom_raw(x, n, pp, qq) };
+    DiscRef::new(&f, mean, sd, skew, ek, 0.0, n)
+}
+pub fn poisson_ref(lam: f64) -> DiscRef {
+    let f = move |x: f64| ln_dpois_raw(x, lam);
+    DiscRef::new(&f, lam, lam.sqrt(), 1.0 / lam.sqrt(), 1.0 / lam, 0.0, f64::INFINITY)
+}
+pub fn hypergeom_ref(nn: f64, kk: f64, n: f64) -> DiscRef {
+    let p = kk / nn;
+    let mean = n * p;
+    let var = n * p * (1.0 - p) * (nn - n) / (nn - 1.0).max(1.0);
+    let sd = var.sqrt();
+    let skew = if sd > 0.0 && nn > 2.0 { (nn - 2.0 * kk) * (nn - 1.0).sqrt() * (nn - 2.0 * n) / ((n * kk * (nn - kk) * (nn - n)).sqrt() * (nn - 2.0)) } else { 0.0 };
+    let lo = (n + kk - nn).max(0.0);
+    let hi = n.min(kk);
+    let f = move |x: f64| ln_dhyper(x, kk, nn - kk, n);
+    DiscRef::new(&f, mean, sd, skew, 0.0, lo, hi)
 }
 pub fn poisson_pmf(k: u64, lam: f64) -> f64 {
     let k = k as f64;
